@@ -1,8 +1,28 @@
-(** C09 — Pseudo-TCP always makes progress.  Proved part: the clock interface names a finite deadline
-    at most 4 s away while the socket is not closed (1 ms in TIME-WAIT).  The liveness clauses are not
-    theorems (DESIGN.md): they are exercised by the correspondence runs as counterexample search only. *)
+(** C09 — Pseudo-TCP always makes progress: completes, or fails with an error, never hangs.
+    Proved on the bit-exact model (coq/Ptcp/PtcpModel.v), all statements partial-correctness w.r.t. [Fault] (a failed g_assert
+    of the implementation; C10's subject):
+      1. the clock interface names a finite deadline while the socket is open (4 s; 1 ms in TIME-WAIT);
+      2. TIMER ARMED, over every sequence of API calls / received byte strings / clock values from every configuration:
+         unacknowledged sequence numbers in flight => the retransmission timer is armed, the clock interface names its expiry,
+         and [notify_clock] acts on it (re-send of the head segment, count + 1, re-arm; or error closure); dually a closed peer
+         window is probed every rx_rto (doubling) and -- the recorded finding -- aborted 15 s after the last received segment;
+         a pending delayed ACK is flushed after ack_delay;
+      3. SILENCE => ERROR: from every reachable state with data in flight (this includes SYN-SENT after connect), if nothing is
+         ever received and the owner follows the clock interface, then after at most [silence_rounds] = 9216 rounds (explicit
+         decreasing measure [mu]; the concrete runs below need 30 and 152) the socket is CLOSED and the Closed callback has
+         reported a non-zero error;
+      4. BACK-OFF SHAPE of such a run (open peer window): after k time-out retransmissions rx_rto = min (60000, rto0 * 2^k) once
+         established, = 1000 while connecting; each of them re-sends the head segment of the send queue;
+      5. WINDOW UPDATE: a reader that drains a closed receive window by min (rbuf/2, mss) makes [recv] emit at once a pure ACK
+         advertising the new window when nothing of the socket's own is waiting to be sent; refuted in general: Nagle can hold
+         back the only segment that would carry the update ([C09_window_update_withheld_by_nagle_refuted], same on pseudotcp.c).
+    NOT proved: completion (all data readable, both CLOSED) within a bound after the network heals; that the head of the send
+    queue is the segment at snd_una (a data-path invariant, C08); absence of [Fault] along the runs.
+    No-wrap hypotheses are explicit: [nowrap s H] / [H + 120000 < 2^31]; clock value 0 is excluded (0 means "timer off"). *)
 From Coq Require Import ZArith List Bool.
-From Nice Require Import Base.Bytes Ptcp.PtcpModel Ptcp.PtcpProofs.
+From Nice Require Import Base.Bytes Ptcp.PtcpModel Ptcp.PtcpProofs Ptcp.TimerInvProofs Ptcp.TimerReachProofs Ptcp.SendSpecs
+  Ptcp.SilenceArith Ptcp.SilenceProofs Ptcp.ClockRound Ptcp.SilenceRun Ptcp.BackoffProofs Ptcp.C09Theorems Ptcp.WindowUpdateProofs Ptcp.C09Examples.
+Import ListNotations.
 Local Open Scope Z_scope.
 
 Theorem C09_finite_deadline_while_open_partial : forall timeout now s ev,
@@ -14,3 +34,173 @@ Theorem C09_time_wait_deadline_partial : forall timeout now s ev,
   shutdown s = SD_NONE -> state s = TIME_WAIT -> support_fin_ack s = true -> 0 <= now -> now + 1 < M32 ->
   exists t, get_next_clock timeout now s ev = Ok (Some t, s, ev) /\ t <= now + 1.
 Proof. exact get_next_clock_time_wait. Qed.
+
+(** ---- 2. the timer invariant over all operation sequences ----
+    [reach c now s]: [s] is reached from the fresh socket of configuration [c] (conversation, Nagle, ack delay, FIN-ACK and window-scale
+    support) by some sequence of connect / send / recv / notify_packet (ANY bytes) / notify_clock / get_next_clock / notify_mtu / shutdown /
+    close / buffer-size / write-limit operations at non-decreasing clock values in (0, 2^32), the last at [now].
+    [TI ad now s] := (snd_una <> snd_nxt -> rto_base <> 0) /\ 1000 <= rx_rto <= 60000 /\ rto_base, lastsend, lastrecv, t_ack in [0, now] /\ ack_delay = ad *)
+Theorem C09_timer_invariant : forall c now s, reach c now s -> TI (c_ack_delay c) now s.
+Proof. exact reach_TI. Qed.
+Print Assumptions C09_timer_invariant.
+
+(* the same for operation lists run as a program *)
+Theorem C09_operation_sequences_are_reachable : forall c l t0 s s' evs,
+  reach c t0 s -> clock_mono t0 l -> run_ops l s = Some (s', evs) -> reach c (last_time t0 l) s'.
+Proof. exact run_ops_reach. Qed.
+
+Theorem C09_timer_armed : forall c now s, reach c now s -> snd_una s <> snd_nxt s -> rto_base s <> 0.
+Proof. exact timer_armed. Qed.
+Print Assumptions C09_timer_armed.
+
+(* ... the clock interface names the expiry of every armed timer ... *)
+Theorem C09_armed_timer_is_named : forall c t0 s now H ev,
+  reach c t0 s -> 0 <= c_ack_delay c <= 60000 -> t0 <= now -> 0 < now <= H -> nowrap s H ->
+  snd_una s <> snd_nxt s -> state s <> CLOSED -> (support_fin_ack s = true -> state s <> TIME_WAIT) -> shutdown s = SD_NONE ->
+  rto_base s <> 0 /\
+  exists t, get_next_clock 0 now s ev = Ok (Some t, s, ev) /\ t <= now + 4000 /\ t <= rto_base s + rx_rto s /\
+            (snd_wnd s = 0 -> t <= lastsend s + rx_rto s) /\ (t_ack s <> 0 -> t <= t_ack s + ack_delay s).
+Proof. exact armed_and_named. Qed.
+Print Assumptions C09_armed_timer_is_named.
+
+(* ... and notify_clock acts at rto_base + rx_rto ([hdx] / [hdseq]: transmission count / sequence number of the head of the send queue;
+   [closed_err s' ev'] := state s' = CLOSED /\ exists e <> 0, In (EvClosed e) ev';  [plain_open]: not CLOSED, and with FIN-ACK support
+   neither TIME-WAIT nor LAST-ACK, whose preludes in notify_clock are covered by the silence theorem) *)
+Theorem C09_armed_timer_fires : forall c t0 s now H s' ev',
+  reach c t0 s -> 0 <= c_ack_delay c <= 60000 -> t0 <= now -> 0 < now <= H -> nowrap s H ->
+  snd_una s <> snd_nxt s -> plain_open s -> rto_base s + rx_rto s <= now ->
+  notify_clock now s [] = Ok (tt, s', ev') ->
+  closed_err s' ev' \/
+  (rto_base s' = now /\ hdx (slist s) < xlimit s /\ hdx (slist s') = (hdx (slist s) + 1) mod 256 /\
+   hdseq (slist s') = hdseq (slist s) /\
+   (24 <= wr_limit s -> exists p, In (EvPacket p) ev' /\ pkt_has_seq (conv s) (hdseq (slist s)) p)).
+Proof. exact armed_timer_fires. Qed.
+Print Assumptions C09_armed_timer_fires.
+
+(* zero window: probe at lastsend + rx_rto, time-out doubled; 15 s after the last received segment the socket aborts instead
+   (known finding zero-window-probe-gives-up-after-15s) *)
+Theorem C09_closed_window_probed_or_aborted_after_15s : forall c t0 s now H s' ev',
+  reach c t0 s -> 0 <= c_ack_delay c <= 60000 -> t0 <= now -> 0 < now <= H -> nowrap s H ->
+  plain_open s -> (rto_base s = 0 \/ now < rto_base s + rx_rto s) ->
+  snd_wnd s = 0 -> lastsend s + rx_rto s <= now ->
+  notify_clock now s [] = Ok (tt, s', ev') ->
+  (15000 <= now - lastrecv s /\ closed_err s' ev' /\ In (EvClosed ECONNABORTED) ev') \/
+  (now - lastrecv s < 15000 /\ state s' = state s /\ rx_rto s' = Z.min 60000 (2 * rx_rto s) /\
+   (24 <= wr_limit s -> exists p, In (EvPacket p) ev')).
+Proof. exact closed_window_probed. Qed.
+Print Assumptions C09_closed_window_probed_or_aborted_after_15s.
+
+Theorem C09_pending_delayed_ack_flushed : forall c t0 s now H s' ev',
+  reach c t0 s -> 0 <= c_ack_delay c <= 60000 -> t0 <= now -> 0 < now <= H -> nowrap s H ->
+  plain_open s -> t_ack s <> 0 -> t_ack s + ack_delay s <= now ->
+  notify_clock now s [] = Ok (tt, s', ev') ->
+  closed_err s' ev' \/ (t_ack s' = 0 /\ (24 <= wr_limit s -> exists p, In (EvPacket p) ev')).
+Proof. exact pending_ack_flushed. Qed.
+Print Assumptions C09_pending_delayed_ack_flushed.
+
+(* the no-wrap hypothesis holds for every horizon below 2^31 - 120 s *)
+Theorem C09_nowrap_below_half : forall c t0 s H, reach c t0 s -> H + 120000 < HALF -> nowrap s H.
+Proof. exact nowrap_below_half. Qed.
+
+(** ---- 3. silence => error ----
+    [silent_run H s now n s' now' evs]: n rounds of { get_next_clock 0 = Some t ; notify_clock at any now'' with now <= now'', t <= now'' <= H },
+    nothing received; [evs] all events.  [G s now H]: not CLOSED, not TIME-WAIT, shutdown = SD_NONE, rto_base <> 0, time-outs in range,
+    time stamps in the past and no wrap up to H.  [mu] is the decreasing measure. *)
+Theorem C09_silent_round_decreases_measure : forall H s now n s' now' evs,
+  silent_run H s now n s' now' evs -> G s now H ->
+  closed_err s' evs \/ (G s' now' H /\ mu s' now' + Z.of_nat n <= mu s now).
+Proof. exact silent_run_measure. Qed.
+Print Assumptions C09_silent_round_decreases_measure.
+
+Theorem C09_measure_bounded : forall s now H, G s now H -> 0 <= mu s now <= 9215.
+Proof. exact mu_bounds. Qed.
+
+Theorem C09_silence_gives_error : forall c t0 s now H n s' now' evs,
+  reach c t0 s -> 0 <= c_ack_delay c <= 60000 -> t0 <= now -> 0 < now <= H -> nowrap s H ->
+  snd_una s <> snd_nxt s -> state s <> CLOSED -> state s <> TIME_WAIT -> shutdown s = SD_NONE ->
+  silent_run H s now n s' now' evs -> silence_rounds <= Z.of_nat n ->
+  state s' = CLOSED /\ exists e, e <> 0 /\ In (EvClosed e) evs.
+Proof. exact silence_error_reachable. Qed.
+Print Assumptions C09_silence_gives_error.
+
+(* the same from any state with an armed timer, reachable or not *)
+Theorem C09_silence_gives_error_from_armed_state : forall H s now n s' now' evs,
+  G s now H -> silent_run H s now n s' now' evs -> silence_rounds <= Z.of_nat n -> closed_err s' evs.
+Proof. exact silence_gives_error. Qed.
+Print Assumptions C09_silence_gives_error_from_armed_state.
+
+Theorem C09_open_silent_runs_are_short : forall H s now n s' now' evs,
+  G s now H -> silent_run H s now n s' now' evs -> state s' <> CLOSED -> Z.of_nat n < silence_rounds.
+Proof. exact silent_run_open_bounded. Qed.
+
+(** ---- 4. back-off shape ---- ([silent_run_k]: a silent run counting the rounds in which rto_base + rx_rto was reached) *)
+Theorem C09_backoff_shape : forall c t0 s now H k s' now' evs,
+  reach c t0 s -> 0 <= c_ack_delay c <= 60000 -> t0 <= now -> 0 < now <= H -> nowrap s H ->
+  snd_una s <> snd_nxt s -> plain_open s -> state s <> TIME_WAIT -> shutdown s = SD_NONE -> snd_wnd s <> 0 ->
+  silent_run_k H s now k s' now' evs -> state s' <> CLOSED ->
+  rx_rto s' = backoff (rto_cap s) (rx_rto s) k /\
+  hdseq (slist s') = hdseq (slist s) /\
+  (24 <= wr_limit s -> has_packets (conv s) (hdseq (slist s)) k evs).
+Proof. exact backoff_reachable. Qed.
+Print Assumptions C09_backoff_shape.
+
+Theorem C09_backoff_established : forall r k, 1000 <= r <= 60000 -> backoff 60000 r k = Z.min 60000 (r * 2 ^ Z.of_nat k).
+Proof. exact backoff_established. Qed.
+Theorem C09_backoff_connecting : forall r k, 1000 <= r -> backoff 1000 r (S k) = 1000.
+Proof. exact backoff_connecting. Qed.
+
+(** ---- 5. window update ---- *)
+Theorem C09_window_update_sent_partial : forall n now s,
+  ((support_fin_ack s = true /\ shutdown_reads s = false) \/ (support_fin_ack s = false /\ state s = ESTABLISHED)) ->
+  0 < n -> rcv_wnd s = 0 -> 0 < rb_n (rbuf s) ->
+  let got := Z.min n (rb_n (rbuf s)) in
+  let after := rb_cap (rbuf s) - (rb_n (rbuf s) - got) in
+  0 <= after < 18446744073709551616 -> Z.min (rbuf_len s / 2) (mss s) <= after ->
+  0 <= mss s -> sbuf_n s <= w32 (snd_nxt s - snd_una s) -> 24 <= wr_limit s ->
+  forall r s' ev', recv n now s [] = Ok (r, s', ev') ->
+    fst r = got /\ rcv_wnd s' = after /\
+    exists p, ev' = [EvPacket p] /\ pkt_len p = 24 /\
+      pkt_wnd p = (Z.shiftr after (rwnd_scale s)) mod 65536 /\ pkt_ack p = w32 (rcv_nxt s).
+Proof. exact window_update_sent_elim. Qed.
+Print Assumptions C09_window_update_sent_partial.
+
+(* full statement (FALSE on the model and on pseudotcp.c): "whenever recv re-opens a closed window it emits a packet".
+   Witness: B with Nagle, 100 bytes in flight and 10 bytes held back; the read re-opens 0 -> 1024 and emits no event. *)
+Theorem C09_window_update_withheld_by_nagle_refuted : wu_scenario true = (3, 0, 110, 100, 1024, 0%nat).
+Proof. exact window_update_withheld_by_nagle. Qed.
+
+(** ---- the hypotheses are met by concrete, non-trivial reachable states (evaluated with vm_compute) ---- *)
+(* connecting: [ex_s1] = fresh socket after connect at t = 1000 ms; it is reachable, in SYN-SENT with the connect segment in flight,
+   and satisfies G (so every hypothesis of C09_silence_gives_error / C09_armed_timer_is_named holds with now = 1000, H = 40000) *)
+Example C09_example_connecting_state :
+  reach ex_cfg 1000 ex_s1 /\ G ex_s1 1000 40000 /\
+  state ex_s1 = SYN_SENT /\ snd_una ex_s1 = 0 /\ snd_nxt ex_s1 = 7 /\ rto_base ex_s1 = 1000 /\ rx_rto ex_s1 = 1000 /\
+  shutdown ex_s1 = SD_NONE /\ snd_wnd ex_s1 = 7 /\ t_ack ex_s1 = 0.
+Proof. exact (conj ex_s1_reach (conj ex_s1_G ex_s1_facts)). Qed.
+
+(* its silent run under the ideal owner: 30 rounds, closed with ETIMEDOUT at t = 31000 ms (bound of the theorem: 9216 rounds) *)
+Example C09_example_connecting_run :
+  exists s' evs, ideal_run 30 ex_s1 1000 = Some (s', 31000, evs) /\ state s' = CLOSED /\ In (EvClosed ETIMEDOUT) evs.
+Proof. exact ex_run1_silent. Qed.
+Example C09_example_ideal_runs_are_silent_runs : forall H n s now s' now' evs,
+  ideal_run n s now = Some (s', now', evs) -> now' <= H -> silent_run H s now n s' now' evs.
+Proof. exact ideal_run_sound. Qed.
+
+(* established: [ex_s2] = A after connect, the peer's connect segment, and a write of 500 bytes; reachable, ESTABLISHED, 500 bytes
+   in flight, G holds; the silent run closes with ETIMEDOUT after 152 rounds at t = 604030 ms; after 12 rounds 5 retransmissions have
+   happened and rx_rto = 32000 = backoff 60000 1000 5 *)
+Example C09_example_established_state :
+  reach ex_cfg 1030 ex_s2 /\ G ex_s2 1030 1000000 /\
+  state ex_s2 = ESTABLISHED /\ snd_una ex_s2 = 7 /\ snd_nxt ex_s2 = 507 /\ rto_base ex_s2 = 1030 /\ rx_rto ex_s2 = 1000 /\
+  shutdown ex_s2 = SD_NONE /\ snd_wnd ex_s2 = 61440 /\ hdx (slist ex_s2) = 1 /\ hdseq (slist ex_s2) = 7 /\ wr_limit ex_s2 = 65535.
+Proof. exact (conj ex_s2_reach (conj ex_s2_G ex_s2_facts)). Qed.
+Example C09_example_established_run :
+  exists s' evs, ideal_run 152 ex_s2 1030 = Some (s', 604030, evs) /\ state s' = CLOSED /\ In (EvClosed ETIMEDOUT) evs.
+Proof. exact ex_run2_silent. Qed.
+Example C09_example_backoff :   (* ex_run2_12 := ideal_run 12 ex_s2 1030 *)
+  match ex_run2_12 with
+  | Some (s', now', evs) => st_num (state s') = 3 /\ now' = 44030 /\ rx_rto s' = backoff 60000 1000 5 /\ rx_rto s' = 32000 /\
+                            hdx (slist s') = 6 /\ length (ex_packets evs) = 5%nat
+  | None => False
+  end.
+Proof. exact ex_run2_12_result. Qed.
